@@ -37,6 +37,17 @@ RULE = ("one case = one Saml2Client (one configuration) consuming a sequence of 
         "quick = every one-dimension deviation from the standard form + the pairs around wrapping (49 shapes) x signed "
         "element {Response, assertion} x 3 option settings (assertion: plain and encrypted) + under the KeyInfo opt-out; "
         "thorough = full product (3276 shapes x 2 elements); (D) draws a random shape for 25% of its signatures.  "
+        "(F) how the options reach the client (round 4): class of the configuration object {SPConfig, IdPConfig, Config} x "
+        "Config.context assigned before the client is built {left alone, 'sp', 'idp', 'aa', ''} | config_factory(type, dict) "
+        "for type in {'sp', 'idp', 'aa', ''} | Saml2Client(config_file=<path of a module with CONFIG>) | "
+        "Saml2Client(config_file=<dict>), each with and without a service/idp section next to service/sp, x the three options "
+        "as WRITTEN {absent, True, False, the texts 'true' 'True' 'yes' '1' ' ON ' / 'false' 'FALSE' 'no' '0' ' false ' '' 'off' "
+        "/ the unreadable 'maybe'} both in service/sp and through Config.setattr('sp', name, value) on the loaded object "
+        "(following fix 6bdc97cd: a text is read by what it says, an unreadable word -> the client cannot be built -> no "
+        "identity): quick = every surface (24) x 5 option settings (2 whose effect differs observably from the "
+        "defaults + 2 rotating through all 27 (unset/True/False)^3 + 1 with an unreadable word; spellings taken in turn), "
+        "thorough = every surface with and without service/idp x all 27 x 2 spellings + 2 unreadable; per client a sequence of the 4 probes {unsigned, Response signed, "
+        "assertion signed, both} (plain/encrypted, bindings drawn) + 2 random messages.  "
         "Signature states are real: RSA through the xmlsec1 stand-in, corruption by byte edits.  "
         "non-trivial = distinct (configuration, abstract message sequence) other than (defaults, Valid, Absent, plain, POST)")
 TRUSTED = ["xmlsec1 stand-in (sign/verify/encrypt/decrypt)", "renderer harness/render.py",
@@ -60,7 +71,12 @@ ASSUMPTIONS = ["everything but the signatures and the Issuer elements is valid (
                "federation facts of harness/world.py (the IdP publishes idp and idp2 for signing and idpenc for encryption "
                "only, the other member publishes other) are restated in Model.md_certs / Spec.md_trusts; generate() asserts them",
                "the identity cache Saml2Client.users is emptied before every message of a sequence so that each message's "
-               "identity can be told apart; everything else of the SP lives on"]
+               "identity can be told apart; everything else of the SP lives on",
+               "spellings of an option value (round 4, after fix 6bdc97cd): booleans and ASCII texts (TRUE_TEXTS, FALSE_TEXTS, "
+               "BAD_TEXTS) in service/sp of the dict and through Config.setattr('sp', ..) on the loaded object; NOT generated: "
+               "non-ASCII texts (Unicode blanks / case mapping are not modelled), values that are neither bool nor str, options "
+               "assigned after the client was built; only_use_keys_in_metadata keeps the spellings of round 1 (it is not read "
+               "by Base.__init__)"]
 
 OPTV = ["unset", True, False, "true"]
 SIGST = ["Absent", "Valid", "Corrupt", "Untrusted"]
@@ -229,7 +245,10 @@ def source2_items():
             "params": ["self", "config", "identity_cache", "state_cache", "virtual_organization", "config_file", "msg_cb"],
             "extra_params": [("entity_init", "pyval -> pyval"), ("population", "pyval -> pyval"), ("lock", "pyval"),
                              ("cfg_getattr", "pyval -> pyval -> pyval -> pyval")],
-            "returns_state": ["self"], "ignore_calls": LOGGING,
+            "returns_state": ["self"], "ignore_calls": LOGGING, "exc_parents": EXC_PARENTS,
+            # the message of the SAMLError for an unreadable word is an f-string with {val!r}: evaluated for its
+            # text only (repr of a str cannot raise), the translator drops the arguments of a raise anyway
+            "lenient_raise_args": True,
             "calls": {"Entity.__init__": _call_entity_init, "Population": lambda a: "(population %s)" % a[0],
                       "threading.Lock": lambda a: "lock",
                       "self.config.getattr": lambda a: "(cfg_getattr v_self %s %s)" % tuple(a)}}),
@@ -521,17 +540,21 @@ def gen_random_n(rng, count):
         pool = [rng.randrange(1 << 30), rng.randrange(1 << 30)]
         steps = []
         for _ in range(rng.randint(6, 12)):
-            aw = "idp" if rng.random() < 0.5 else rng.choice(WHO)
-            rw = aw if rng.random() < 0.6 else rng.choice(WHO)
-            enc = rng.random() < 0.3
-            as_ = random_sig(rng, HOW_A, enc, False)
-            rs = random_sig(rng, HOW_R, enc, not enc and (as_ is None or as_["c"] in (None, "nameid")))
-            if rs is not None and rs["c"] == "inner" and as_ is not None:
-                as_["c"] = "nameid"          # the edit inside the assertion breaks its signature as well
-            b = rng.choice(["POST"] * 6 + ["Redirect", "Redirect", "SOAP", "SOAP", "PAOS"])
-            steps.append(step(rw, aw, rs, as_, enc, b, rng.choice(pool)))
+            steps.append(random_step(rng, pool))
         cases.append(seq("random", cfg, steps))
     return cases
+
+
+def random_step(rng, pool):
+    aw = "idp" if rng.random() < 0.5 else rng.choice(WHO)
+    rw = aw if rng.random() < 0.6 else rng.choice(WHO)
+    enc = rng.random() < 0.3
+    as_ = random_sig(rng, HOW_A, enc, False)
+    rs = random_sig(rng, HOW_R, enc, not enc and (as_ is None or as_["c"] in (None, "nameid")))
+    if rs is not None and rs["c"] == "inner" and as_ is not None:
+        as_["c"] = "nameid"          # the edit inside the assertion breaks its signature as well
+    b = rng.choice(["POST"] * 6 + ["Redirect", "Redirect", "SOAP", "SOAP", "PAOS"])
+    return step(rw, aw, rs, as_, enc, b, rng.choice(pool))
 
 
 # ---------------------------------------------------------------------------- (E) shapes of ds:Signature
@@ -654,7 +677,97 @@ def generate(ctx):
     cases = gen_legacy(ctx, rng) + gen_keys(ctx, rng) + gen_replay(ctx, rng) + gen_random(ctx, rng)
     # (E) uses its own stream so that the cases above stay the ones of the earlier rounds
     rng2 = random.Random(rng.randrange(1 << 30))
-    return cases + gen_shapes(ctx, rng2) + gen_random_shapes(ctx, rng2)
+    cases = cases + gen_shapes(ctx, rng2) + gen_random_shapes(ctx, rng2)
+    # (F) likewise
+    rng3 = random.Random(rng.randrange(1 << 30))
+    return cases + gen_surfaces(ctx, rng3)
+
+
+# ---------------------------------------------------------------------------- (F) how the options reach the client
+# case["surf"] = {"d": delivery, "ctx": None | "sp" | "idp" | "aa" | "", "proxy": bool, "set": [option keys set with
+#                 Config.setattr("sp", ..) on the loaded object instead of being written into service/sp]}
+# delivery = "obj:SPConfig" | "obj:IdPConfig" | "obj:Config"      Saml2Client(config=Class().load(dict))
+#          | "fac:sp" | "fac:idp" | "fac:aa" | "fac:"             Saml2Client(config=config_factory(type, dict))
+#          | "file" | "dict"                                      Saml2Client(config_file=path / dict)
+# with a surface the options wr / wa / wor of case["cfg"] range over WRITTEN = unset, True, False, "true", "false"
+CLASSES = ["SPConfig", "IdPConfig", "Config"]
+CONTEXTS = ["sp", "idp", "aa", ""]
+OPT_KEYS = ["wr", "wa", "wor"]
+OPT_NAME = {"wr": "want_response_signed", "wa": "want_assertions_signed", "wor": "want_assertions_or_response_signed"}
+
+
+def surfaces():
+    out = [("obj:" + c, x) for c in CLASSES for x in [None] + CONTEXTS]
+    out += [("fac:" + t, None) for t in CONTEXTS] + [("fac:idp", "sp"), ("fac:sp", ""), ("fac:", "idp")]
+    out += [("file", None), ("dict", None)]
+    return out
+
+
+# texts that say a boolean / that say none (fix 6bdc97cd: read by what they say; an unreadable word -> SAMLError when
+# the client is built); all of them are in Source2.all_texts
+TRUE_TEXTS = ["true", "True", "yes", "1", " ON "]
+FALSE_TEXTS = ["false", "FALSE", "no", "0", " false ", "", "off"]
+BAD_TEXTS = ["maybe"]
+_spell_turn = {}
+
+
+def spell(rng, meant, can_set):
+    """(value written, set on the object?) for an option the deployer means to be unset / True / False / "bad" (an
+    unreadable word).  The forms are taken in turn (per meaning and delivery), the start drawn: every text is written
+    both into service/sp and through Config.setattr within a few clients."""
+    if meant == "unset":
+        return "unset", False
+    texts = {True: TRUE_TEXTS, False: FALSE_TEXTS, "bad": BAD_TEXTS}[meant]
+    forms = ([(meant, False)] if meant != "bad" else []) + [(t, False) for t in texts]
+    if can_set:
+        forms += ([(meant, True)] if meant != "bad" else []) + [(t, True) for t in texts]
+    key = (str(meant), can_set)
+    if key not in _spell_turn:
+        _spell_turn[key] = rng.randrange(len(forms))
+    _spell_turn[key] += 1
+    return forms[_spell_turn[key] % len(forms)]
+
+
+def gen_surfaces(ctx, rng):
+    triples = [(a, b, c) for a in ("unset", True, False) for b in ("unset", True, False) for c in ("unset", True, False)]
+    # settings whose effect can be told from the defaults' (R=True, A=False): Response need not / assertion must be signed
+    sensitive = [t for t in triples if t[0] is False or t[1] is True]
+    rng.shuffle(triples)
+    rng.shuffle(sensitive)
+    _spell_turn.clear()
+    cases, n = [], 0
+    for i, (d, x) in enumerate(surfaces()):
+        for proxy in ((False, True) if ctx.thorough else (i % 2 == 1,)):
+            if ctx.thorough:
+                todo = [t for t in triples for _ in (0, 1)]
+            else:
+                todo = [sensitive[(2 * n) % len(sensitive)], sensitive[(2 * n + 1) % len(sensitive)],
+                        triples[(2 * n) % len(triples)], triples[(2 * n + 1) % len(triples)]]
+            # an unreadable word at one option (in turn), the others as in the first setting: the client is not built
+            bad = list(todo[0])
+            bad[n % 3] = "bad"
+            todo = todo + [tuple(bad)] + ([tuple("bad" if j == (n + 1) % 3 else v for j, v in enumerate(todo[1]))] if ctx.thorough else [])
+            n += 1
+            for t in todo:
+                can_set = d not in ("file", "dict")
+                cfg, setl = {}, []
+                for k, meant in zip(OPT_KEYS, t):
+                    cfg[k], is_set = spell(rng, meant, can_set)
+                    if is_set:
+                        setl.append(k)
+                cfg["only"] = rng.choice(["unset", "unset", "unset", True, False, False, "true"])
+                pool = [rng.randrange(1 << 30), rng.randrange(1 << 30)]
+                steps = []
+                for r_signed, a_signed in ((False, False), (True, False), (False, True), (True, True)):
+                    steps.append(step("idp", "idp", sig("idp") if r_signed else None, sig("idp") if a_signed else None,
+                                      enc=rng.random() < 0.3, b=rng.choice(["POST", "POST", "POST", "Redirect", "SOAP"]),
+                                      seed=rng.choice(pool)))
+                steps += [random_step(rng, pool), random_step(rng, pool)]
+                rng.shuffle(steps)
+                c = seq("surface-" + d.split(":")[0], cfg, steps)
+                c["surf"] = {"d": d, "ctx": x, "proxy": proxy, "set": setl}
+                cases.append(c)
+    return cases
 
 
 def gen_random_shapes(ctx, rng):
@@ -980,9 +1093,71 @@ def encode(xml, b):
     return render.soap_envelope(xml)
 
 
+def surface_client(cfg, surf):
+    """A new Saml2Client that gets its configuration the way `surf` says (local helper: world.make_sp always goes
+    through SPConfig().load(dict) and config=)."""
+    import hashlib
+    import shutil
+    import sys
+    import tempfile
+
+    env.install_standin()
+    spaccept.CLOCK.install()
+    _memo_private_keys()
+    from saml2.client import Saml2Client
+    import saml2.config as sconfig
+
+    setl = list(surf.get("set", []))
+    conf = world.sp_config(**copy.deepcopy(opt_over({k: ("unset" if k in setl else v) for k, v in cfg.items()})))
+    if surf["proxy"]:
+        conf["service"]["idp"] = copy.deepcopy(world.idp_config()["service"]["idp"])
+    d = surf["d"]
+    if d in ("file", "dict"):
+        if setl or surf["ctx"] is not None:
+            raise ValueError("the client loads the configuration itself: nothing can be set on the object before")
+        if d == "dict":
+            return Saml2Client(config_file=conf)
+        text = "CONFIG = %r\n" % (conf,)
+        name = "c01cfg_" + hashlib.sha256(text.encode("utf-8")).hexdigest()[:16]
+        tmp = tempfile.mkdtemp(prefix="c01cfg_")
+        path0 = list(sys.path)
+        try:
+            with open(os.path.join(tmp, name + ".py"), "w") as f:
+                f.write(text)
+            return Saml2Client(config_file=os.path.join(tmp, name + ".py"))
+        finally:
+            sys.path[:] = path0
+            sys.modules.pop(name, None)
+            shutil.rmtree(tmp, ignore_errors=True)
+    kind, _, arg = d.partition(":")
+    if kind == "obj":
+        obj = getattr(sconfig, arg)().load(conf)
+    elif kind == "fac":
+        obj = sconfig.config_factory(arg, conf)
+    else:
+        raise ValueError(d)
+    for k in setl:
+        if cfg[k] == "unset":
+            raise ValueError("nothing to set")
+        obj.setattr("sp", OPT_NAME[k], cfg[k])
+    if surf["ctx"] is not None:
+        obj.context = surf["ctx"]
+    return Saml2Client(config=obj)
+
+
 def observe(case):
     over = opt_over(case["cfg"])
-    sp = fresh_sp(over) if case["fresh"] else spaccept.get_sp(over)
+    if case.get("surf"):
+        import saml2
+
+        try:
+            sp = surface_client(case["cfg"], case["surf"])
+        except saml2.SAMLError as e:
+            # the client cannot be built (an unreadable option): no message is consumed, no identity
+            return {"steps": [{"identity": None, "exc": "no-client:" + type(e).__name__, "cached": [], "name_id": None}
+                              for _ in case["steps"]]}
+    else:
+        sp = fresh_sp(over) if case["fresh"] else spaccept.get_sp(over)
     memo = {}
     out = []
     for st in case["steps"]:
@@ -1025,8 +1200,34 @@ def cq_step(st, o):
                                        cq(bool(st["enc"])), st["b"], cq(bool(o["identity"])))
 
 
+CQ_CTX = {"sp": "XSp", "idp": "XIdp", "aa": "XAa", "": "XNo"}
+CQ_CLASS = {"SPConfig": "CSp", "IdPConfig": "CIdp", "Config": "CPlain"}
+
+
+def cq_deliver(d):
+    kind, _, arg = d.partition(":")
+    if kind == "obj":
+        return "(DObject %s)" % CQ_CLASS[arg]
+    if kind == "fac":
+        return "(DFactory %s)" % CQ_CTX[arg]
+    return {"file": "DFile", "dict": "DDict"}[d]
+
+
+def cq_written(v, is_set):
+    if v == "unset":
+        return "WUnset"
+    return "(%s (%s))" % ("WSet" if is_set else "WDict", ("PB " + cq(v)) if isinstance(v, bool) else ("PT " + cq(v)))
+
+
 def coq_case(case, obs):
     c = case["cfg"]
+    surf = case.get("surf")
+    if surf:
+        return "C01.Corr.mkc %s %s %s %s %s %s %s [%s]" % (
+            cq_deliver(surf["d"]), "None" if surf["ctx"] is None else "(Some %s)" % CQ_CTX[surf["ctx"]], cq(bool(surf["proxy"])),
+            cq_written(c["wr"], "wr" in surf["set"]), cq_written(c["wa"], "wa" in surf["set"]),
+            cq_written(c["wor"], "wor" in surf["set"]), cq_optv(c.get("only", "unset")),
+            "; ".join(cq_step(s, o) for s, o in zip(case["steps"], obs["steps"])))
     return "C01.Corr.mk (cfg %s %s %s %s) [%s]" % (
         cq_optv(c["wr"]), cq_optv(c["wa"]), cq_optv(c["wor"]), cq_optv(c.get("only", "unset")),
         "; ".join(cq_step(s, o) for s, o in zip(case["steps"], obs["steps"])))
@@ -1049,6 +1250,11 @@ def abstract_step(st):
 def nontrivial(case, obs):
     c = case["cfg"]
     key = (str(c["wr"]), str(c["wa"]), str(c["wor"]), str(c.get("only", "unset")), [abstract_step(s) for s in case["steps"]])
+    surf = case.get("surf")
+    if surf:
+        # a string spells another value than the boolean: "True" vs "'true'"
+        key = (repr(c["wr"]), repr(c["wa"]), repr(c["wor"]), str(c.get("only", "unset")), key[4],
+               (surf["d"], surf["ctx"], surf["proxy"], tuple(sorted(surf["set"]))))
     if key == ("unset", "unset", "unset", "unset", [("idp", "idp", "Valid", "Absent", False, "POST")]):
         return None
     return key
@@ -1057,8 +1263,15 @@ def nontrivial(case, obs):
 def histogram(cases, observed):
     h = {"by_tag": {}, "messages": 0, "identity": 0, "rejected": 0, "exceptions": {}, "by_binding": {}, "encrypted": 0,
          "sequence_length": {}, "corruptions": {}, "issuer_pairs": {}, "signing_keys": {}, "shaped_signatures": 0,
-         "reference_targets": {}, "second_signature": {}, "shapes_accepted": 0}
+         "reference_targets": {}, "second_signature": {}, "shapes_accepted": 0, "surfaces": {}, "options_written": {}}
     for c, o in zip(cases, observed):
+        if c.get("surf"):
+            sf = c["surf"]
+            k = "%s ctx=%r%s" % (sf["d"], sf["ctx"], " +idp" if sf["proxy"] else "")
+            h["surfaces"][k] = h["surfaces"].get(k, 0) + 1
+            for ok_ in OPT_KEYS:
+                k = "%s%r" % ("setattr " if ok_ in sf["set"] else "", c["cfg"][ok_])
+                h["options_written"][k] = h["options_written"].get(k, 0) + 1
         tag = c["tag"].split("-")[0] if c["fresh"] else c["tag"]
         h["by_tag"][tag] = h["by_tag"].get(tag, 0) + 1
         n = str(len(c["steps"]))
